@@ -1,7 +1,7 @@
 """C18 — capture analysis is exact: _collect_implicit_usages under contract (for each input of a node that is not defined
 in the current subgraph, exactly the graphs of the scope stack strictly inside the defining graph record it; nothing else
 changes); region extraction (backward walk, frontier validation, clone of a view) and the whole-analysis result: bounded."""
-from pyvc.core import ClassDecl, FnDecl
+from pyvc.core import ClassDecl, Exc, FnDecl
 from pyvc.engine import Engine, Target
 from pyvc.sem_stmt import LoopSpec
 from pyvc.types import *  # noqa: F401,F403
@@ -11,7 +11,8 @@ from . import schema
 IU = "onnx_ir.analysis._implicit_usage"
 LEVEL = "proof"
 TRUSTED = []
-NOT_DECIDED = ["_process_node recursion over attributes (scope stack push/pop), _find_subgraph_bounded_by_values worklist (closure + "
+NOT_DECIDED = ["_process_node: the scope stack is balanced on every normal return (PROVED, target _process_node); that the recursion visits every "
+               "nested graph exactly once, _find_subgraph_bounded_by_values worklist (closure + "
                "minimality), frontier validation, extract = view + clone: bounded stand-in against brute-force oracles"]
 BOUNDED = [{"name": "C18 every (inputs, outputs) cut of small graphs with a nested body vs brute-force reachability; capture analysis vs brute-force scopes (bounded)",
             "script": "bounded_extract.py", "args": []}]
@@ -68,3 +69,78 @@ def build(eng, tier):
                  "old(v in box(box(implicit_usages)[box(graph_stack)[j]])) or "
                  "(v in node._inputs and vgraph(v) is not subgraph and inside_def(box(graph_stack), j, vgraph(v))))))"],
         raises_default=[], modifies=[f"{SETV.cls}.$v"]))
+
+
+def add_process_node_target(eng):
+    """_process_node (the DFS over graph-valued attributes): the scope stack is balanced - on a normal return graph_stack holds
+    exactly the graphs it held at entry, in order (every push is matched by a pop on every path, for GRAPH and GRAPHS
+    attributes and around the recursive calls).  Effect contract in lenient mode: the attribute/graph iterations are
+    unmodelled iterables cut with this invariant; the recursive call and _collect_implicit_usages are used through their
+    contracts (they leave graph_stack as they found it - for the recursion that is this very postcondition)."""
+    LG = eng.LIST(TRef("Graph"))
+    SETV = eng.SET(TRef("Value"))
+    UMAP = eng.DICT(TRef("Graph"), SETV)
+    bal = "seq_eq(box(graph_stack), old(box(graph_stack)))"
+    frame = [f"{UMAP.cls}.$v", f"{SETV.cls}.$v", "$alloc"]
+    rec = FnDecl(f"{IU}._process_node", "contract", IU, "_process_node", requires=["nonnull(graph_stack)"], ensures=[],
+                 raises={"AnyException": []}, modifies=frame)
+    col = FnDecl(f"{IU}._collect_implicit_usages", "contract", IU, "_collect_implicit_usages", requires=["nonnull(graph_stack)"], ensures=[],
+                 raises={"AnyException": []}, modifies=frame)
+
+    def fresh_seq(e, p, ety, name):
+        import z3
+        from pyvc.types import NULL, fresh_name
+        v = e.symbolic_param(p, fresh_name(name), TSeq(ety))
+        i = z3.Int(fresh_name("qi"))
+        p.assume(v.len >= 0)
+        p.assume(z3.ForAll([i], z3.Implies(z3.And(0 <= i, i < v.len), v.at(i).z != NULL)))
+        return v
+
+    def m_attr_values(e, p, args, kwargs, node):
+        return [(p, fresh_seq(e, p, TRef("Attr"), "attrs"))]
+
+    def m_as_graph(e, p, args, kwargs, node):
+        from pyvc.types import NULL, fresh_name
+        g = e.symbolic_param(p, fresh_name("subgraph"), TRef("Graph"))
+        p.assume(g.z != NULL)
+        return [(p, g), (p.copy(), Exc("AnyException", f"L{node.lineno}:as_graph"))]
+
+    def m_as_graphs(e, p, args, kwargs, node):
+        return [(p, fresh_seq(e, p, TRef("Graph"), "subgraphs")), (p.copy(), Exc("AnyException", f"L{node.lineno}:as_graphs"))]
+
+    def setup(e, p, env):
+        e.lenient = True
+        e.functions[f"{IU}._process_node"] = rec
+        e.functions[f"{IU}._collect_implicit_usages"] = col
+        e.method_models = dict(e.method_models)
+        e.method_models[("Attributes", "values")] = FnDecl("Attributes.values", "builtin", impl=m_attr_values)
+        e.method_models[("Attr", "as_graph")] = FnDecl("Attr.as_graph", "builtin", impl=m_as_graph)
+        e.method_models[("Attr", "as_graphs")] = FnDecl("Attr.as_graphs", "builtin", impl=m_as_graphs)
+        orig_iter = e.iter_extra
+
+        def iter_extra(v, p2):
+            from pyvc.types import VRef
+            if isinstance(v, VRef) and v.cls == "Graph":
+                return fresh_seq(e, p2, TRef("Node"), "graph_nodes")     # the nodes of a graph: some sequence of nodes
+            return orig_iter(v, p2)
+        e.iter_extra = iter_extra
+    pushed = ("len(box(graph_stack)) == old(len(box(graph_stack))) + 1 and "
+              "forall(lambda i=int: implies(0 <= i and i < old(len(box(graph_stack))), box(graph_stack)[i] is old(box(graph_stack)[i])))")
+    mods = [f"{LG.cls}.$v"] + frame
+    eng.add_target(Target("_process_node", mod=IU, qual="_process_node", setup=setup,
+        params=dict(node=TRef("Node"), implicit_usages=UMAP, graph_stack=LG),
+        requires=["nonnull(node)", "nonnull(node._attributes)", "nonnull(graph_stack)", "nonnull(implicit_usages)"],
+        loops={"for attr in node.attributes.values()": LoopSpec(invariant=[bal, "nonnull(graph_stack)"], modifies=mods),
+               "for subgraph in attr.as_graphs()": LoopSpec(invariant=[bal, "nonnull(graph_stack)"], modifies=mods),
+               # inside a pushed scope (both `for node in subgraph` loops): exactly one more graph than at entry, the entry
+               # prefix untouched
+               "for node in subgraph": LoopSpec(invariant=[pushed, "nonnull(graph_stack)"], modifies=frame)},
+        ensures=[bal], raises_default=[], modifies=None, assert_mode="raise"))
+
+
+_build18 = build
+
+
+def build(eng, tier):
+    _build18(eng, tier)
+    add_process_node_target(eng)
